@@ -91,7 +91,7 @@ def scratch_root(cid):
 
 
 def run_workers(cid, binpath, testname, tier, nworkers, deadline_s, scratch, extra_env=None, args=None,
-                hard_timeout_s=None, mem_kb=24 * 1024 * 1024, keep_logs=False):
+                hard_timeout_s=None, mem_kb=24 * 1024 * 1024, keep_logs=False, allow_nonzero=False):
     """Start nworkers subprocesses of a go test binary; return list of report dicts (+ distinct hash sets)."""
     seed = os.environ.get("VERIF_SEED", "0")
     procs = []
@@ -116,7 +116,7 @@ def run_workers(cid, binpath, testname, tier, nworkers, deadline_s, scratch, ext
         rc = p.wait()
         lf.close()
         rp = os.path.join(wdir, "report.json")
-        if rc != 0 or not os.path.exists(rp):
+        if (rc != 0 and not allow_nonzero) or not os.path.exists(rp):
             tail = open(os.path.join(wdir, "log.txt"), errors="replace").read()[-5000:]
             keep = os.path.join(build_dir(cid), "failed-worker-%d.log" % i)
             shutil.copy(os.path.join(wdir, "log.txt"), keep)
